@@ -259,7 +259,7 @@ package server
 // What travels on client.out was built for this connection (client.write): typed pointers are non-nil, a PUBLISH for
 // a v5 client carries a property block (MessageToPublish).
 //@ spec func wfOut(c *client, p packets.Packet) bool = (p.(type *packets.Publish) ==> p.(*packets.Publish) != nil && p.(*packets.Publish).Version == c.version && (c.version == 5 ==> p.(*packets.Publish).Properties != nil)) && (p.(type *packets.Pubrec) ==> p.(*packets.Pubrec) != nil) && (p.(type *packets.Puback) ==> p.(*packets.Puback) != nil) && (p.(type *packets.Pubcomp) ==> p.(*packets.Pubcomp) != nil)
-//@ recv field (client).out ensures wfOut(client, value)
+//@ recv field (client).out ensures wfOut(owner, value)
 
 //@ func (*client).writeLoop
 //@ props C13
